@@ -1,6 +1,6 @@
 #!/bin/sh
 # usage: tools/run_tier.sh <verif-dir> <tier> [properties...]   (development / background runs; evidence goes under <verif-dir>)
-V=${1:-/verif}; T=${2:-thorough}; shift 2
+V=$(cd ${1:-/verif} && pwd); T=${2:-thorough}; shift 2
 PROPS=${*:-C01 C02 C03 C04 C05 C06 C07 C08 C09 C10 C11 C12 C13 C14 C15 C16 C17 C18 C19 C20}
 mkdir -p $V/bin $V/logs
 ( cd $V/engine && GOFLAGS=-mod=mod GOPROXY=off GOSUMDB=off GOTOOLCHAIN=local go build -o $V/bin/goitsym . ) || exit 2
